@@ -65,6 +65,20 @@ class Raises:
         return "('exc', <any>)"
 
 
+class Detached:
+    """Expected links of the former direct children of a cleared map (children outside `want` are not compared)."""
+
+    def __init__(self, want):
+        self.want = want
+
+    def __call__(self, obs):
+        got = {c: (p, k) for c, p, k in obs}
+        return all(got.get(c) == v for c, v in self.want.items())
+
+    def __repr__(self):
+        return repr(sorted((c,) + v for c, v in self.want.items()))
+
+
 class Env:
     pass
 
@@ -478,6 +492,7 @@ class ResourcesAdapter:
                 sm += [(x, n, 'handle' if ent[n][0] == 'h' else 'snap', ent[n][1]) for n in self.env.names if n in ent]
         exp['smirror'] = tuple(sm)
         exp['_vis'] = vis
+        exp['_layers'] = layers
         exp['_maps'] = maps
         self._exp_cache[id(post)] = exp
         return exp
@@ -506,8 +521,13 @@ class ResourcesAdapter:
             before = self._expect_state(pre)
             kids = set(before['_maps'][args[0]].values()) | set(before['_vis'][args[0]].values())
             # detached — except a child that was moved elsewhere meanwhile: it keeps recording its new place
+            # (and if that place is gone too, no map holds it any more and its links are not compared)
             parent, key = fmap(post['parent']), fmap(post['key'])
-            exp['detached'] = tuple(sorted((c, parent[c], key[c]) for c in kids))
+            after = self._expect_state(post)
+            held = {c for mm in after['_maps'].values() for c in mm.values()} | \
+                   {c for ls in after['_layers'].values() for l in ls for c in l.values()}
+            own = fmap(pre['parent'])
+            exp['detached'] = Detached({c: (parent[c], key[c]) for c in kids if own[c] == args[0] or c in held})
         return exp
 
 
